@@ -274,7 +274,24 @@ def run(p, led, tier):
                 pg, cg = obj.fields[GENES], child.fields[GENES]
                 diff = sorted(k for k in set(pg) | set(cg) if freeze(pg.get(k)) != freeze(cg.get(k)))
                 shared_table = cg is pg
-                return dict(parent_changed=freeze({k: v for k, v in obj.fields.items()}) != before, diff=diff, same=same_obj or shared_table,
+                parent_changed = freeze({k: v for k, v in obj.fields.items()}) != before
+                # afterwards each genome is regulated on its own: nothing done to the child's expression may show in the
+                # parent, and the other way round (no state object shared between the two)
+                alias = []
+                if not same_obj:
+                    for who, target, other, gname in (("child", child, obj, "g2"), ("parent", obj, child, "g1")):
+                        for mname in ("silence_gene", "activate_gene"):
+                            mm = p.find_method(genome, mname)
+                            if mm is None:
+                                continue
+                            snap_other = freeze({k: v for k, v in other.fields.items()})
+                            try:
+                                it.call_fi(mm, [target, gname], {})
+                            except PyRaise:
+                                continue
+                            if freeze({k: v for k, v in other.fields.items()}) != snap_other:
+                                alias.append(f"{mname}({gname!r}) on the {who} changes the {'parent' if who == 'child' else 'child'}")
+                return dict(parent_changed=parent_changed, alias=alias, diff=diff, same=same_obj or shared_table,
                             approved=approved_on_path(it), mutate_calls=sum(1 for e in it.events if e == ("call", "Genome.mutate")))
             paths = [(l, r) for l, r in explore(go_r, max_paths=400) if r is not None]
             key = f"Genome.replicate ▸ allow_mutations={allow} callback={cb}"
@@ -284,6 +301,8 @@ def run(p, led, tier):
                     probs.append("replication altered the parent")
                 if r["same"]:
                     probs.append("child shares the parent's gene table (a later child mutation changes the parent)")
+                for a_ in r["alias"]:
+                    probs.append(f"after replication {a_}: the two genomes share a mutable expression record")
                 authorised = allow or (cb == "callback" and r["approved"])
                 if r["diff"] and not authorised:
                     probs.append(f"child differs from parent in {r['diff']} without authorisation")
